@@ -27,7 +27,9 @@ IMPORTANT = ("tpllocal", "predeclared", "pkgname", "localtype", "caseclash", "tp
 def slots_for(ctx, tier):
     def f(prog):
         flip = ctx.rng.random() < 0.5
-        if tier == "thorough" or prog["fam"] in ("pkgs", "generic", "mname", "local", "unnamed") or prog["idclass"] in ("typename", "caseclash"):
+        if tier == "thorough":
+            return [("testify", True), ("testify", False), ("matryer", True), ("matryer", False), ("testify", None), ("matryer", None)]
+        if prog["fam"] in ("pkgs", "generic", "mname", "local", "unnamed") or prog["idclass"] in ("typename", "caseclash"):
             return [("testify", True), ("testify", False), ("matryer", True), ("matryer", False)]
         return [("testify", flip), ("matryer", not flip)]
     return f
@@ -41,10 +43,7 @@ def run_world(ctx, gm, world, cases, traces):
     return gm
 
 
-def T(ctx, what):
-    if os.environ.get("VERIF_DEBUG"):
-        import time
-        print("[%6.1fs] %s" % (time.time() - ctx.t0, what), file=sys.stderr)
+T = cw.T
 
 
 def run(ctx):
